@@ -1,13 +1,19 @@
 """C19 -- network synthesis realises the requested immittance.
 
-1. lake build Lcapy.Props.C19 (continued-fraction expansion, Cauer ladders, pattern forms, Foster sums);
-   axioms audit.
-2. Correspondence: the Lean model (native driver) and the real Lcapy synthesise the same generated
-   impedances: Cauer I from N/D (same elements, same impedance at sample points, same raise / no-raise),
-   the ten pattern forms from the generated constant / var / 1/var parts.
-3. Oracle (independent of the model): for every generated impedance and every form,
-   `Z.network(form).Z(s)` must equal Z at random rational points (judged by the Lean predicate
-   `syn.same`), a form that cannot realise must raise, and `net.transform(form)` must preserve Z.
+1. lake build Lcapy.Props.C19, Lcapy.Props.C19Forms (continued-fraction expansion, Cauer ladders, pattern forms
+   decided from N/D, Foster forms end to end from N/D with a checked pole table, network()/transform()); axioms audit.
+2. Correspondence: the Lean model (native driver) and the real Lcapy synthesise the same generated immittances:
+   * every form of `Z.network(form)` from the coefficient lists of N/D -- same accept / reject / empty decision,
+     same impedance at sample points, same elements (kind, value) as a multiset;
+   * Foster I/II with the pole table of D (of N) found by SymPy and CHECKED by the model (`rootsCheck`, distinct);
+   * the entry points `lcapy.synthesis.network(expr, form)`, `Synthesis().network`, `Z.network`, `Y.network`,
+     `net.transform(form)` for impedance-, admittance- and otherwise-typed expressions, error kinds mapped to
+     the model's enum (notImpedance, unknownForm, cannotRealise).
+3. Oracle (independent of the model): for every generated immittance, every form and every entry point, a returned
+   network must have the GIVEN immittance (impedance for an impedance, admittance for an admittance) at random
+   rational points (judged by the Lean predicate `syn.same`), a form that cannot realise must raise, and
+   `net.transform(form)` must preserve Z.  Every returned network is also checked for consistent reporting:
+   `net.Z`, `1/net.Y` and the netlist route `net.cct.impedance(1, 0)` agree.
 """
 import os
 import sys
@@ -110,6 +116,73 @@ class Gen:
                'cm': fstr(vals[2]) if present[2] else '-', 'other': 1 if other else 0}
         return e, raw, symvals
 
+    # ---- round 3: immittances built from a POLE TABLE (Foster-directed)
+    def pole_table(self, rng, allow_rep=True):
+        """[(pole as sympy number, multiplicity)] closed under conjugation: 0, real rationals, +-jw, -a+-jb"""
+        S = self.S
+        table = []
+        used = set()
+        for _ in range(rng.randint(1, 3)):
+            kind = rng.choice(['zero', 'real', 'real', 'imag', 'complex'])
+            n = 1
+            if allow_rep and rng.random() < 0.3:
+                n = rng.choice([2, 2, 3])
+            if kind == 'zero':
+                ps = [S.Integer(0)]
+            elif kind == 'real':
+                ps = [self.q(Fraction(rng.choice([-1, -1, -1, 1]) * rng.randint(1, 5), rng.choice([1, 1, 2])))]
+            elif kind == 'imag':
+                w = self.q(Fraction(rng.randint(1, 4), rng.choice([1, 1, 2])))
+                ps = [S.I * w, -S.I * w]
+            else:
+                a = self.q(Fraction(rng.randint(1, 3), rng.choice([1, 2])))
+                b = self.q(Fraction(rng.randint(1, 3), rng.choice([1, 2])))
+                ps = [-a + S.I * b, -a - S.I * b]
+            if any(p in used for p in ps):
+                continue
+            used.update(ps)
+            for p in ps:
+                table.append((p, n))
+        return table
+
+    def from_poles(self, rng):
+        """Z = N/D with D = c * prod (s - p)^n expanded and a generic (or structured) numerator"""
+        S, s = self.S, self.s
+        table = self.pole_table(rng)
+        D = S.expand(self.q(rr(rng)) * S.Mul(*[(s - p) ** n for p, n in table]))
+        dd = S.degree(D, s) if D.has(s) else 0
+        mode = rng.choice(['generic', 'generic', 'residues', 'zeros', 'common-factor'])
+        if mode == 'generic':
+            dn = max(0, min(dd + rng.choice([-1, 0, 1, 1, 2]), dd + 2))
+            N = sum(self.q(Fraction(rng.randint(-4, 5), rng.choice([1, 1, 2]))) * s ** i for i in range(dn + 1))
+        elif mode == 'residues':
+            # a Foster-realisable sum: real residues on simple poles, s-proportional numerators on conjugate pairs
+            N = 0
+            done = set()
+            for p, n in table:
+                if p in done:
+                    continue
+                if p.is_real:
+                    N += self.q(rr(rng)) * S.cancel(D / (s - p))
+                else:
+                    pc = S.conjugate(p)
+                    done.add(pc)
+                    N += self.q(rr(rng)) * s * S.cancel(D / ((s - p) * (s - pc)))
+            N += rng.choice([0, 1, 1]) * (self.q(rr(rng)) + rng.choice([0, 1]) * self.q(rr(rng)) * s) * D
+        elif mode == 'zeros':
+            zt = self.pole_table(rng, allow_rep=False)
+            N = S.expand(self.q(rr(rng)) * S.Mul(*[(s - p) ** n for p, n in zt]))
+        else:
+            # numerator shares a factor with the denominator: the expanded quotient is NOT in lowest terms
+            p0 = table[0][0]
+            f = (s - p0) if p0.is_real else S.expand((s - p0) * (s - S.conjugate(p0)))
+            N = S.expand(f * sum(self.q(Fraction(rng.randint(-4, 5), rng.choice([1, 2]))) * s ** i for i in range(rng.randint(1, 3))))
+        N = S.expand(N)
+        if N == 0:
+            N = S.Integer(1)
+        return N, D, {'family': 'from a pole table (%s numerator)' % mode,
+                      'poles': ['%s^%d' % (p, n) for p, n in table]}
+
 
 def walk(net, out):
     nm = type(net).__name__
@@ -122,95 +195,268 @@ def walk(net, out):
 
 
 def run(chk, replay=None):
-    broken = chk.lean(['Lcapy/Props/C19.lean'],
+    broken = chk.lean(['Lcapy/Props/C19.lean', 'Lcapy/Props/C19Forms.lean'],
                       helper_files=['Lcapy/Proofs/PolySynth.lean', 'Lcapy/Proofs/PolyCF.lean', 'Lcapy/Proofs/Poly.lean',
-                                    'Lcapy/Proofs/PolyRatfun.lean', 'Lcapy/Model/PolySynth.lean', 'Lcapy/Model/Ratfun.lean',
-                                    'Lcapy/Model/Poly.lean', 'Lcapy/Driver/C19.lean'],
+                                    'Lcapy/Proofs/PolyRatfun.lean', 'Lcapy/Proofs/PolyFoster.lean', 'Lcapy/Proofs/PolyBridge.lean',
+                                    'Lcapy/Model/PolySynth.lean', 'Lcapy/Model/PolyFoster.lean',
+                                    'Lcapy/Model/Ratfun.lean', 'Lcapy/Model/Poly.lean', 'Lcapy/Driver/C19.lean'],
                       leanchecker=(chk.tier == 'thorough'))
     drv = chk.get_driver()
     L_ = base.L()
     S = L_.sym
     s = L_.VAR['s']
+    lc = L_.lcapy
     rng = chk.rng
     G = Gen(L_)
     quick = chk.tier == 'quick'
     tlimit = 10 if quick else 25
     disagreements = []
-    state = {'cex': 0}
-    chk.coverage['rule'] = ('each case = (impedance Z(s), form): Z from random positive-element LC/RC/RL/RLC ladders, random rational functions '
-                            '(not positive-real in general), poles at 0/infinity, repeated poles, zero, and sums of constant/s/(1/s) parts (numeric, negative, '
-                            'symbolic sampled at rational values, with or without an unrealisable extra term); every synthesis form is tried on every Z; '
-                            'non-trivial = Lcapy returned a network; distinct by (Z, form)')
+    state = {'cex': 0, 'consistency': 0}
+    chk.coverage['rule'] = ('each case = (immittance, entry point, form): Z from random positive-element LC/RC/RL/RLC ladders, random rational '
+                            'functions (not positive-real in general), poles at 0/infinity, repeated poles, zero, sums of constant/s/(1/s) parts '
+                            '(numeric, negative, symbolic sampled at rational values, with or without an unrealisable extra term), and N/D expanded '
+                            'from pole tables (0, real, +-jw, complex pairs, multiplicities 1-3; generic / Foster-realisable / zero-table / '
+                            'not-in-lowest-terms numerators); every synthesis form is tried on every Z; entry points Z.network, Y.network, '
+                            'synthesis.network(Z|Y|other), Synthesis().network, net.transform; non-trivial = Lcapy returned a network; '
+                            'distinct by (expression, entry, form)')
 
     def ask(line):
         return drv.ask1(line)
 
-    def nd_tokens(Zs, symvals):
+    def diag(msg):
+        d = chk.coverage['correspondence']['diagnostics']
+        if len(d) < 16:
+            d.append(msg[:300])
+
+    def disagree(what, inp, lcapy, model):
+        chk.coverage['correspondence']['disagreements'] += 1
+        disagreements.append({'what': what, 'input': inp, 'lcapy': lcapy, 'model': model})
+
+    def call(fn, limit=None):
+        """(result, None, None) | (None, kind, message): kind in timeout / exception class name"""
+        box = {}
+
+        def f():
+            try:
+                return fn()
+            except RecursionError:
+                raise
+            except base.Timeout:
+                raise
+            except Exception as e:   # noqa
+                box['msg'] = str(e)
+                raise
+        r, err = L_.timed(f, limit or tlimit)
+        return r, err, box.get('msg', '')
+
+    def err_kind(err, msg):
+        """Lcapy's exception -> the model's enum"""
+        if err == 'ValueError' and msg.startswith('Expression needs to be an impedance'):
+            return 'notImpedance'
+        if err == 'ValueError' and msg.startswith('Unknown form'):
+            return 'unknownForm'
+        return 'cannotRealise'
+
+    def coeffs(P):
+        return [L_.to_cq(c) for c in reversed(S.Poly(P, s).all_coeffs())]
+
+    def nd_of(Zs, symvals=None, keep=False):
         e = Zs
         if symvals:
             e = e.subs({S.Symbol(n, positive=True): L_.srat(Fraction(v)) for n, v in symvals.items()})
-        N, D = S.fraction(S.cancel(e))
-        Nt = [L_.to_cq(c) for c in reversed(S.Poly(N, s).all_coeffs())]
-        Dt = [L_.to_cq(c) for c in reversed(S.Poly(D, s).all_coeffs())]
-        return Nt, Dt
+        N, D = S.fraction(S.together(e)) if keep else S.fraction(S.cancel(e))
+        return coeffs(S.expand(N)), coeffs(S.expand(D))
 
-    def points(Nt, Dt, n):
+    def root_table(P):
+        """SymPy's root table of a polynomial in s as driver tokens, or None if not all roots are Gaussian rationals"""
+        try:
+            P = S.Poly(S.expand(P), s)
+        except Exception:   # noqa
+            return None
+        if P.degree() <= 0:
+            return []
+        try:
+            rts = S.roots(P)
+        except Exception:   # noqa
+            return None
+        if sum(rts.values()) != P.degree():
+            return None
+        toks = []
+        try:
+            for r, n in rts.items():
+                toks += [L_.to_cq(r), str(n)]
+        except Exception:   # noqa
+            return None
+        return toks
+
+    def points(Nt, Dt, n, nonzero_value=False):
         pts = []
         tries = 0
         while len(pts) < n and tries < 40:
             tries += 1
             x = Fraction(rng.randint(1, 40), rng.randint(1, 7)) * rng.choice([1, 1, -1])
             v = ask('syn.value | %s | %s | %s' % (' '.join(Nt), ' '.join(Dt), fstr(x)))
-            if v != 'undef':
+            if v != 'undef' and not (nonzero_value and v == '0'):
                 pts.append((x, v))
         return pts
 
-    def eval_net_Z(net, symvals, x):
-        zs = net.Z(L_.lcapy.s).sympy
+    def sub_sym(e, symvals):
         if symvals:
-            zs = zs.subs({S.Symbol(n, positive=True): L_.srat(Fraction(v)) for n, v in symvals.items()})
-        return L_.to_cq(S.cancel(zs).subs(s, L_.srat(x)))
+            e = e.subs({S.Symbol(n, positive=True): L_.srat(Fraction(v)) for n, v in symvals.items()})
+        return e
+
+    def eval_expr(e, symvals, x):
+        e = e.sympy if hasattr(e, 'sympy') else S.sympify(e)
+        return L_.to_cq(S.cancel(sub_sym(e, symvals)).subs(s, L_.srat(x)))
+
+    def eval_net_Z(net, symvals, x):
+        return eval_expr(net.Z(lc.s), symvals, x)
 
     def cex(key, inp, detail, what):
         state['cex'] += 1
         chk.counterexample(key, {'input': inp, 'detail': detail,
                                  'how': 'lcapy.impedance(Z).network(form).Z(s) versus Z at s = x'}, what)
 
-    def one(Zs, meta, symvals=None, raw=None, forms=FORMS, rawkind=None):
-        """run every form on impedance Zs"""
+    def leaves_of(net):
+        return sorted('%s:%s' % (k, L_.to_cq(S.sympify(v.sympy if hasattr(v, 'sympy') else v))) for k, v in walk(net, []))
+
+    def has_zero_element(net):
         try:
-            Nt, Dt = nd_tokens(Zs, symvals)
+            return any(S.sympify(v.sympy if hasattr(v, 'sympy') else v) == 0 for _, v in walk(net, []))
+        except Exception:   # noqa
+            return True
+
+    def consistent_reporting(net, symvals, pts, inp, form, Nt, Dt):
+        """G3: element values must be reported consistently: net.Z, 1/net.Y and the netlist route agree"""
+        if not pts:
+            return
+        x, sv = pts[0]
+        state['consistency'] += 1
+        zgot, e1 = L_.timed(lambda: eval_net_Z(net, symvals, x), tlimit)
+        if e1:
+            return
+        ygot, e2 = L_.timed(lambda: eval_expr(net.Y(lc.s), symvals, x), tlimit)
+        if e2:
+            chk.count('consistency', 'net.Y-unevaluable:%s' % e2)
+        else:
+            # Y = D/N at a point where Z(x) != 0
+            ok = ask('syn.same | %s | %s | %s | %s' % (' '.join(Dt), ' '.join(Nt), fstr(x), ygot)) if sv != '0' else 'skip'
+            chk.count('consistency', 'net.Y:%s' % ok)
+            if ok == 'false':
+                cex({'kind': 'reporting', 'form': form, 'route': 'net.Y'}, inp,
+                    {'form': form, 'network': str(net), 'x': fstr(x), 'net.Y': ygot, 'net.Z': zgot, 'Z_requested': sv},
+                    'net.Y of the synthesised network is not the reciprocal of the requested impedance')
+        if symvals or state['consistency'] > (30 if quick else 200) or has_zero_element(net):
+            chk.count('consistency', 'cct:skipped')
+            return
+        cgot, e3 = L_.timed(lambda: eval_expr(net.cct.impedance(1, 0), symvals, x), tlimit)
+        if e3:
+            chk.count('consistency', 'cct-unevaluable:%s' % e3)
+            return
+        ok = ask('syn.same | %s | %s | %s | %s' % (' '.join(Nt), ' '.join(Dt), fstr(x), cgot))
+        chk.count('consistency', 'cct:%s' % ok)
+        if ok == 'false':
+            cex({'kind': 'reporting', 'form': form, 'route': 'net.cct'}, inp,
+                {'form': form, 'network': str(net), 'x': fstr(x), 'cct.impedance(1,0)': cgot, 'net.Z': zgot, 'Z_requested': sv},
+                'the netlist of the synthesised network (net.cct) does not have the requested impedance')
+
+    def model_form(form, Nt, Dt, x, tabD, tabN):
+        """the model's verdict for Z.network(form) decided from N/D"""
+        Ns, Ds = ' '.join(Nt), ' '.join(Dt)
+        if form == 'cauerI':
+            return ask('syn.cauerI | %s | %s | %s' % (Ns, Ds, fstr(x)))
+        if form == 'cauerII':
+            return ask('syn.cauerII | %s | %s | %s' % (Ns, Ds, fstr(x)))
+        if form == 'fosterI':
+            return None if tabD is None else ask('syn.foster I | %s | %s | %s | %s' % (Ns, Ds, ' '.join(tabD), fstr(x)))
+        if form == 'fosterII':
+            return None if tabN is None else ask('syn.foster II | %s | %s | %s | %s' % (Ns, Ds, ' '.join(tabN), fstr(x)))
+        return ask('syn.form %s | %s | %s | %s' % (form, Ns, Ds, fstr(x)))
+
+    def compare_with_model(form, model, outcome, got_vals, net, inp, err, msg):
+        """outcome in network / None / raises;  model = list of replies (one per point)"""
+        if model is None or not model or model[0] is None:
+            return
+        m0 = model[0].split()
+        chk.coverage['correspondence']['compared'] += 1
+        if m0[0] in ('negpower', 'fuelout', 'outside'):
+            chk.count('model', '%s:%s (outside the model)' % (form, m0[0]))
+            return
+        if m0[0] == 'badtable':
+            disagree(form + ':model-rejects-root-table', inp, outcome, model[0])
+            return
+        mo = {'ok': 'network', 'empty': 'None', 'raise': 'raises'}.get(m0[0], m0[0])
+        chk.count('model-vs-lcapy', '%s:%s/%s' % ('transform' if form.startswith('transform') or inp.get('net') else 'cauer' if form.startswith('cauer')
+                                                  else 'foster' if form.startswith('foster') else 'pattern', mo, outcome))
+        if mo != outcome:
+            if outcome == 'raises' and mo == 'network' and err not in ('ValueError',):
+                # Lcapy/SymPy gives up with an internal error where the model realises: raising is allowed by the property
+                chk.count('model', 'model-realises-but-lcapy-fails:%s:%s' % (form, err))
+                diag('%s on %s: model %s, lcapy raises %s' % (form, inp.get('Z'), model[0][:60], err))
+                return
+            if form in ('cauerI', 'cauerII') and outcome == 'raises' and mo == 'network':
+                chk.count('model', 'model-realises-but-lcapy-raises:%s:%s' % (form, err))
+                diag('%s on %s: model %s, lcapy raises %s %s' % (form, inp.get('Z'), model[0][:60], err, msg[:60]))
+                return
+            disagree(form + ':accepts', inp, '%s %s %s' % (outcome, err or '', msg[:80]), model[0])
+            return
+        if outcome != 'network':
+            return
+        for i, got in enumerate(got_vals):
+            if got is None or i >= len(model):
+                continue
+            m = model[i].split()
+            if m[0] == 'ok' and m[1] != got:
+                disagree(form + ':value', inp, got, model[i])
+                return
+        try:
+            lv = leaves_of(net)
+        except Exception:   # noqa
+            chk.count('degenerate', 'elements-unevaluable')
+            return
+        if lv != sorted(m0[3:]):
+            disagree(form + ':elements', inp, lv, sorted(m0[3:]))
+
+    def one(Zs, meta, symvals=None, raw=None, forms=FORMS, rawkind=None, nd=None, transforms=True):
+        """run every form on impedance Zs (a sympy expression in s)"""
+        try:
+            Nt, Dt = nd if nd is not None else nd_of(Zs, symvals)
         except Exception:   # noqa
             chk.count('degenerate', 'not-a-rational-function-of-s')
             return
         pts = points(Nt, Dt, 2 if quick else 3)
         inp = dict(meta)
         inp.update({'Z': str(Zs), 'N(low first)': Nt, 'D(low first)': Dt, 'symvals': symvals})
-        Zl, err = L_.timed(lambda: L_.lcapy.impedance(Zs), tlimit)
+        Zl, err, msg = call(lambda: lc.impedance(Zs))
         if err:
             chk.count('lcapy-error', 'impedance():%s' % err)
             return
         chk.count('family', meta['family'])
+        tabD = tabN = None
+        if not symvals:
+            # the model works on the cancelled N/D (what Ratfun sees after sym.cancel in as_B_A); root tables by SymPy
+            cN, cD = S.fraction(S.cancel(sub_sym(S.sympify(Zs), None)))
+            tabD, tabN = root_table(cD), root_table(cN)
+            cNt, cDt = coeffs(S.expand(cN)), coeffs(S.expand(cD))
         for form in forms:
-            net, err = L_.timed(lambda: Zl.network(form), tlimit)
+            net, err, msg = call(lambda: Zl.network(form))
             chk.count('form', form)
             key = (str(Zs), form, str(symvals))
             # ---- model
             model = None
-            if form == 'cauerI' and not symvals:
-                model = [ask('syn.cauerI | %s | %s | %s' % (' '.join(Nt), ' '.join(Dt), fstr(x))) for (x, _) in pts]
-            elif form == 'cauerII' and not symvals:
-                model = [ask('syn.cauerII | %s | %s | %s' % (' '.join(Nt), ' '.join(Dt), fstr(x))) for (x, _) in pts]
+            if not symvals:
+                model = [model_form(form, cNt, cDt, x, tabD, tabN) for (x, _) in pts] if pts else None
             elif raw is not None and form in PATTERNS and (form.startswith('series') == (rawkind == 'Z')):
                 model = [ask('syn.pattern %s | %s %s %s %d | %s' % (form, raw['c0'], raw['cp'], raw['cm'], raw['other'], fstr(x))) for (x, _) in pts]
+            if err == 'timeout':
+                chk.case(key, False)
+                chk.count('outcome', '%s:timeout' % form)
+                continue
             if err:
                 chk.case(key, False)
-                chk.count('outcome', '%s:raises' % form if err != 'timeout' else '%s:timeout' % form)
+                chk.count('outcome', '%s:raises' % form)
                 chk.count('lcapy-error', '%s:%s' % (form, err))
-                if model and model[0].startswith('ok') and err != 'timeout':
-                    chk.count('model', 'model-realises-but-lcapy-raises:%s:%s' % (form, err))
-                    chk.coverage['correspondence']['diagnostics'].append('%s on %s: model %s, lcapy raises %s' % (form, Zs, model[0][:60], err)) \
-                        if len(chk.coverage['correspondence']['diagnostics']) < 12 else None
+                compare_with_model(form, model, 'raises', [], None, inp, err, msg)
                 continue
             if net is None:
                 chk.case(key, False)
@@ -218,15 +464,19 @@ def run(chk, replay=None):
                 # the empty network is only acceptable for Z = 0
                 if not all(t == '0' for t in Nt):
                     cex({'kind': 'synthesis', 'form': form, 'result': 'None'}, inp, {'form': form}, '%s returns no network for a non-zero impedance' % form)
+                compare_with_model(form, model, 'None', [], None, inp, None, '')
                 continue
             chk.case(key, True)
             chk.count('outcome', '%s:network' % form)
             bad = False
+            got_vals = []
             for i, (x, sv) in enumerate(pts):
                 got, e2 = L_.timed(lambda: eval_net_Z(net, symvals, x), tlimit)
                 if e2:
                     chk.count('degenerate', 'network-Z-unevaluable:%s:%s' % (form, e2))
+                    got_vals.append(None)
                     continue
+                got_vals.append(got)
                 ok = ask('syn.same | %s | %s | %s | %s' % (' '.join(Nt), ' '.join(Dt), fstr(x), got))
                 if ok != 'true':
                     cex({'kind': 'synthesis', 'form': form}, inp,
@@ -234,34 +484,44 @@ def run(chk, replay=None):
                         'network(%s) does not have the requested impedance' % form)
                     bad = True
                     break
-                if model is not None:
-                    chk.coverage['correspondence']['compared'] += 1
-                    m = model[i].split()
-                    if m[0] != 'ok':
-                        if form in ('cauerI', 'cauerII') and m[0] == 'negpower':
-                            chk.count('model', '%s:negpower (outside the model)' % form)
-                        else:
-                            chk.coverage['correspondence']['disagreements'] += 1
-                            disagreements.append({'what': form, 'input': inp, 'lcapy': str(net), 'model': model[i]})
-                    elif m[1] != got:
-                        chk.coverage['correspondence']['disagreements'] += 1
-                        disagreements.append({'what': form, 'input': inp, 'lcapy': got, 'model': model[i]})
-                    elif i == 0 and not symvals:
-                        # same elements (kind, value) as a multiset
-                        try:
-                            lv = sorted('%s:%s' % (k, L_.to_cq(S.sympify(v.sympy if hasattr(v, 'sympy') else v))) for k, v in walk(net, []))
-                            if lv != sorted(m[3:]):
-                                chk.coverage['correspondence']['disagreements'] += 1
-                                disagreements.append({'what': form + ':elements', 'input': inp, 'lcapy': lv, 'model': sorted(m[3:])})
-                        except Exception:   # noqa
-                            chk.count('degenerate', 'elements-unevaluable')
             if bad:
                 continue
-            # transform preserves Z (only for the Cauer/Foster forms, on networks we just got)
-            if form in ('cauerI', 'fosterI') and not symvals:
+            if symvals and model is not None:
+                # symbolic: value correspondence with the raw-parts model only
+                for i, got in enumerate(got_vals):
+                    if got is None:
+                        continue
+                    chk.coverage['correspondence']['compared'] += 1
+                    m = model[i].split()
+                    if m[0] != 'ok' or m[1] != got:
+                        disagree(form, inp, got, model[i])
+                        break
+            else:
+                compare_with_model(form, model, 'network', got_vals, net, inp, None, '')
+            consistent_reporting(net, symvals, pts, inp, form, Nt, Dt)
+            # transform preserves Z (on networks we just got)
+            if transforms and form in ('cauerI', 'fosterI') and not symvals:
                 for f2 in ('cauerI', 'cauerII', 'fosterI', 'fosterII'):
-                    n2, e3 = L_.timed(lambda: net.transform(f2), tlimit)
+                    n2, e3, m3 = call(lambda: net.transform(f2))
                     chk.count('transform', '%s->%s:%s' % (form, f2, 'ok' if not e3 else e3))
+                    # model of transform: network(net.Z) on the network Lcapy returned
+                    if pts and e3 != 'timeout':
+                        try:
+                            toks = net_tokens(net)
+                            mt = ask('syn.transform %s | %s | %s | %s | %s' % (f2, ' '.join(toks), ' '.join(tabD or []), ' '.join(tabN or []), fstr(pts[0][0])))
+                            mrep = mt.split(' ; ')[2] if ' ; ' in mt else mt
+                            if (f2 == 'fosterI' and tabD is None) or (f2 == 'fosterII' and tabN is None):
+                                mrep = None
+                        except Exception:   # noqa
+                            mrep = None
+                        if mrep is not None:
+                            out3 = 'raises' if e3 else ('None' if n2 is None else 'network')
+                            gv = []
+                            if out3 == 'network':
+                                g3, e5 = L_.timed(lambda: eval_net_Z(n2, symvals, pts[0][0]), tlimit)
+                                gv = [None if e5 else g3]
+                            mrep = {'err:cannotRealise': 'raise'}.get(mrep, mrep)
+                            compare_with_model('transform:' + f2 if not f2.startswith('cauer') else f2, [mrep], out3, gv, n2, dict(inp, net=str(net)), e3, m3)
                     if e3 or n2 is None:
                         continue
                     for (x, sv) in pts[:1]:
@@ -273,19 +533,127 @@ def run(chk, replay=None):
                             cex({'kind': 'transform', 'form': f2}, inp, {'from': str(net), 'to': str(n2), 'x': fstr(x), 'Z_after': got, 'Z_before': sv},
                                 'transform(%s) changes the impedance' % f2)
 
-    ncases = 35 if quick else 210
-    budget = 120 if quick else 900
+    def net_tokens(net):
+        nm = type(net).__name__
+        if nm in ('Ser', 'Par'):
+            args = list(net.args)
+            toks = net_tokens(args[0])
+            for a in args[1:]:
+                toks = ['S' if nm == 'Ser' else 'P'] + toks + net_tokens(a)
+            return toks
+        v = net.args[0]
+        return ['%s:%s' % (nm, L_.to_cq(S.sympify(v.sympy if hasattr(v, 'sympy') else v)))]
+
+    def entry_points(N, D, meta):
+        """C19 entry points: the immittance N/D handed over as an impedance, an admittance and an untyped expression"""
+        from lcapy import synthesis
+        e = S.cancel(N / D)
+        cN, cD = S.fraction(e)
+        try:
+            Nt, Dt = coeffs(S.expand(cN)), coeffs(S.expand(cD))
+        except Exception:   # noqa
+            return
+        tabD, tabN = root_table(cD), root_table(cN)
+        pts = points(Nt, Dt, 1, nonzero_value=True)
+        if not pts:
+            return
+        x, sv = pts[0]
+        objs = {'Z': lambda: lc.impedance(e), 'Y': lambda: lc.admittance(e), 'other': lambda: lc.expr(e)}
+        inp0 = dict(meta)
+        inp0.update({'expr': str(e), 'N(low first)': Nt, 'D(low first)': Dt})
+        forms = ['default', rng.choice(['cauerI', 'cauerII']), rng.choice(['fosterI', 'fosterII']), rng.choice(PATTERNS), 'RLC', 'nonsense']
+        for kind in ('Z', 'Y', 'other'):
+            obj, err, msg = call(objs[kind])
+            if err:
+                chk.count('lcapy-error', 'entry-object:%s:%s' % (kind, err))
+                continue
+            entries = [('synthesis.network', lambda f: synthesis.network(obj, f)),
+                       ('Synthesis().network', lambda f: synthesis.Synthesis().network(obj, f))]
+            if kind in ('Z', 'Y'):
+                entries.append(('obj.network', lambda f: obj.network(f)))
+            for ename, fn in entries:
+                for form in forms:
+                    if ename != 'synthesis.network' and form in ('nonsense',) and kind == 'other':
+                        continue
+                    net, err, msg = call(lambda: fn(form))
+                    chk.count('entry', '%s(%s)' % (ename, kind))
+                    inp = dict(inp0, entry=ename, quantity=kind, form=form)
+                    key = (str(e), ename, kind, form)
+                    outcome = 'timeout' if err == 'timeout' else 'raises:' + err_kind(err, msg) if err else 'None' if net is None else 'network'
+                    chk.count('entry-outcome', '%s(%s):%s' % (ename, kind, outcome.split(':')[0] if not outcome.startswith('raises') else outcome))
+                    chk.case(key, outcome == 'network')
+                    if err == 'timeout':
+                        continue
+                    # ---- oracle: a returned network has the GIVEN immittance
+                    if outcome == 'network':
+                        if kind == 'Y' or (kind == 'other'):
+                            # the expression is the admittance (resp. has no immittance reading): compare net.Y with it
+                            got, e2 = L_.timed(lambda: eval_expr(net.Y(lc.s), None, x), tlimit)
+                            what = 'admittance'
+                        else:
+                            got, e2 = L_.timed(lambda: eval_net_Z(net, None, x), tlimit)
+                            what = 'impedance'
+                        if kind == 'other':
+                            # a network for an expression that is no immittance: it must at least be one of the two readings
+                            gz, e6 = L_.timed(lambda: eval_net_Z(net, None, x), tlimit)
+                            okz = (not e6) and ask('syn.same | %s | %s | %s | %s' % (' '.join(Nt), ' '.join(Dt), fstr(x), gz)) == 'true'
+                            oky = (not e2) and ask('syn.same | %s | %s | %s | %s' % (' '.join(Nt), ' '.join(Dt), fstr(x), got)) == 'true'
+                            if not (okz or oky):
+                                cex({'kind': 'entry', 'entry': ename, 'quantity': kind, 'form': form}, inp,
+                                    {'network': str(net), 'x': fstr(x), 'net.Z': gz, 'net.Y': got, 'expr': sv},
+                                    '%s returns a network whose immittance is not the given expression' % ename)
+                        elif not e2:
+                            if ask('syn.same | %s | %s | %s | %s' % (' '.join(Nt), ' '.join(Dt), fstr(x), got)) != 'true':
+                                cex({'kind': 'entry', 'entry': ename, 'quantity': kind, 'form': form}, inp,
+                                    {'network': str(net), 'x': fstr(x), 'net.' + what[0].upper(): got, 'requested ' + what: sv},
+                                    '%s(%s-typed expression) returns a network whose %s is not the given expression' % (ename, what, what))
+                    # ---- model: synthesis.network on the typed expression; obj.network = network(obj.Z, form)
+                    if ename == 'obj.network':
+                        mk, mN, mD, mtD, mtN = 'Z', (Nt if kind == 'Z' else Dt), (Dt if kind == 'Z' else Nt), (tabD if kind == 'Z' else tabN), (tabN if kind == 'Z' else tabD)
+                    else:
+                        mk, mN, mD, mtD, mtN = kind, Nt, Dt, tabD, tabN
+                    mform = form
+                    if (mform in ('fosterI',) and mtD is None) or (mform == 'fosterII' and mtN is None):
+                        continue
+                    rep = ask('syn.network %s %s | %s | %s | %s | %s | %s' % (mk, mform, ' '.join(mN), ' '.join(mD), ' '.join(mtD or []), ' '.join(mtN or []), fstr(x)))
+                    m0 = rep.split()[0]
+                    if m0 in ('outside',):
+                        chk.count('model', 'entry:outside')
+                        continue
+                    chk.coverage['correspondence']['compared'] += 1
+                    mo = {'ok': 'network', 'empty': 'None'}.get(m0, 'raises:' + m0[4:] if m0.startswith('err:') else m0)
+                    chk.count('model-vs-lcapy', 'entry:%s/%s' % (mo, outcome))
+                    if mo != outcome:
+                        if outcome.startswith('raises:cannotRealise') and mo == 'network' and (err != 'ValueError' or mform in ('cauerI', 'cauerII', 'default')):
+                            chk.count('model', 'model-realises-but-lcapy-fails:entry:%s:%s' % (form, err))
+                            continue
+                        disagree('entry:%s(%s):%s' % (ename, kind, form), inp, '%s %s' % (outcome, msg[:80]), rep)
+                    elif outcome == 'network':
+                        gz, e6 = L_.timed(lambda: eval_net_Z(net, None, x), tlimit)
+                        if not e6 and rep.split()[1] != gz:
+                            disagree('entry-value:%s(%s):%s' % (ename, kind, form), inp, gz, rep)
+
+    ncases = 28 if quick else 210
+    nfoster = 18 if quick else 150
+    nentry = 6 if quick else 40
+    budget = 150 if quick else 1000
     t0 = time.time()
     if replay:
         import json
         rp = json.load(open(replay if os.path.isabs(replay) else os.path.join(common.VERIF, replay)))
         inp = rp.get('input', {})
-        Zs = S.sympify(inp['Z'], locals={'s': s})
-        one(Zs, {'family': inp.get('family', 'replay')}, symvals=inp.get('symvals'))
+        if 'entry' in inp:
+            e = S.sympify(inp['expr'], locals={'s': s})
+            N, D = S.fraction(e)
+            entry_points(N, D, {'family': inp.get('family', 'replay')})
+        else:
+            Zs = S.sympify(inp['Z'], locals={'s': s})
+            nd = (inp['N(low first)'], inp['D(low first)']) if inp.get('not_in_lowest_terms') else None
+            one(Zs, {'family': inp.get('family', 'replay')}, symvals=inp.get('symvals'), nd=nd)
     else:
         for i in range(ncases):
-            if time.time() - t0 > budget:
-                chk.count('budget', 'stopped-after-%d-cases' % i)
+            if time.time() - t0 > budget * 0.5:
+                chk.count('budget', 'general-stream-stopped-after-%d-cases' % i)
                 break
             fam = i % 7
             if fam == 0:
@@ -314,6 +682,36 @@ def run(chk, replay=None):
                     forms=['cauerI', 'fosterI', 'seriesRL', 'seriesRC', 'seriesLC', 'seriesRLC', 'parallelRLC', 'RLC'])
             if i < 3:
                 chk.sample({'Z': str(Zs) if fam < 4 else str(e), 'family': fam})
+        # ---- Foster-directed stream: N/D expanded from a pole table; NOT cancelled before it is handed to Lcapy
+        for i in range(nfoster):
+            if time.time() - t0 > budget * 0.85:
+                chk.count('budget', 'foster-stream-stopped-after-%d-cases' % i)
+                break
+            N, D, meta = G.from_poles(rng)
+            Zs = N / D          # SymPy keeps the expanded quotient as it is
+            try:
+                nd = (coeffs(N), coeffs(D))
+            except Exception:   # noqa
+                chk.count('degenerate', 'pole-table-coefficients')
+                continue
+            meta['not_in_lowest_terms'] = bool(S.gcd(N, D) != 1)
+            if meta['not_in_lowest_terms']:
+                chk.count('foster-stream', 'not-in-lowest-terms')
+            one(Zs, meta, nd=nd, forms=['fosterI', 'fosterII', 'cauerI', 'RLC', rng.choice(PATTERNS)], transforms=(i % 3 == 0))
+            if i < 2:
+                chk.sample({'Z': str(Zs), 'family': meta['family'], 'poles': meta['poles']})
+        # ---- entry points
+        for i in range(nentry):
+            if time.time() - t0 > budget:
+                chk.count('budget', 'entry-stream-stopped-after-%d-cases' % i)
+                break
+            if i % 2 == 0:
+                e, raw, sv = G.parts(rng)
+                N, D = S.fraction(S.cancel(S.sympify(e)))
+                entry_points(N, D, {'family': 'entry: parts'})
+            else:
+                N, D, meta = G.from_poles(rng)
+                entry_points(N, D, {'family': 'entry: ' + meta['family']})
     chk.coverage['correspondence']['samples_of_disagreement'] = disagreements[:5]
     if broken and state['cex'] == 0 and not chk.known_seen:
         for b in broken[:20]:
